@@ -165,6 +165,23 @@ def main():
         run.case(("az", ci))
 
     generic(run, h, rng, proc)
+    # azimuthal processing is the single-azimuth ratio at every azimuth - with the SAME taper, smoothing and FFT settings (every setting of
+    # the azimuthal settings object reaches every azimuth)
+    n_, dt_ = 600, 0.01
+    xs = [np.cumsum(rng.normal(size=n_)) * 0.1 + rng.normal(size=n_) for _ in range(3)]
+    rec_ = h.SeismicRecording3C(ts(xs[0], dt_), ts(xs[1], dt_), ts(xs[2], dt_))
+    for width_ in (0.0, 0.1, 0.5, 1.0):
+        for sm_ in (dict(operator="konno_and_ohmachi", bandwidth=40.0, center_frequencies_in_hz=np.geomspace(1.0, 30.0, 9)),
+                    dict(operator="linear_triangular", bandwidth=2.0, center_frequencies_in_hz=np.linspace(2.0, 30.0, 8))):
+            kw_ = dict(smoothing=sm_, window_type_and_width=["tukey", width_], fft_settings={"n": 2048})
+            azs_ = [0.0, 40.0, 135.0]
+            azi_ = proc([rec_], h.HvsrAzimuthalProcessingSettings(azimuths_in_degrees=azs_, **copy.deepcopy(kw_)))
+            for a_, hv_ in zip(azs_, azi_.hvsrs):
+                sa_ = proc([rec_], h.HvsrTraditionalSingleAzimuthProcessingSettings(azimuth_in_degrees=a_, **copy.deepcopy(kw_))).amplitude
+                if not np.allclose(hv_.amplitude, sa_, rtol=1e-12, atol=0.0):
+                    run.violation("ratio:azimuthal-settings", f"azimuthal processing with tukey {width_} / {sm_['operator']}: the curve at {a_} deg differs from the single-azimuth "
+                                  f"curve with the same settings (max rel diff {np.max(np.abs(hv_.amplitude - sa_) / np.abs(sa_)):.2e})", dict(kind="az-settings", width=width_, a=a_))
+            run.case(("az-settings", width_, sm_["operator"]))
     return run.finish(
         rule="every case of spec/Spectral.tla (spectrum alphabet^K x 9 method names x 2 kernels) and spec/SpectralAz.tla (complex bins x 4 "
              "azimuths x 3 percentiles) realised as time series and processed; factorisation of taper and padding, power-of-two scaling, "
